@@ -235,7 +235,8 @@ def check(case, obs):
         kd = sH[bm]
         dd = sH[~bm]
         if kd.size and dd.size:
-            obs.claim('density_order', float(kd.min()) >= float(dd.max()),
+            # the library orders the normalised density sH/sum(sH): allow the rounding of that division
+            obs.claim('density_order', float(kd.min()) >= float(dd.max()) * (1 - 1e-12),
                       lambda: 'a kept bin (density %r) is less dense than a dropped bin (%r)' % (kd.min(), dd.max()))
         if kd.size:
             kb = np.argwhere(bm)
